@@ -14,6 +14,9 @@ pub struct RunOpts {
     pub allow: Vec<String>,
     pub verbose: bool,
     pub sarif: Option<PathBuf>,
+    /// instead of removing an existing SARIF file before the run, fill it with a long stale text
+    /// (the run must replace it completely; an untouched file counts as `not written`)
+    pub stale_sarif: bool,
     pub cpu_secs: u64,
     pub rust_log: Option<String>,
     pub cwd: Option<PathBuf>,
@@ -105,12 +108,16 @@ pub fn run(bin: &Path, opts: &RunOpts) -> Result<RunOut, String> {
             Ok(())
         });
     }
+    let stale: String = "{ \"stale\": \"".to_string() + &"x".repeat(200_000) + "\" }\n";
     if let Some(s) = &opts.sarif {
         let _ = std::fs::remove_file(s);
+        if opts.stale_sarif {
+            let _ = std::fs::write(s, &stale);
+        }
     }
     let out = cmd.output().map_err(|e| format!("cannot spawn {}: {e}", bin.display()))?;
     let stdout_utf8 = std::str::from_utf8(&out.stdout).is_ok();
-    let sarif_text = opts.sarif.as_ref().and_then(|p| std::fs::read_to_string(p).ok());
+    let sarif_text = opts.sarif.as_ref().and_then(|p| std::fs::read_to_string(p).ok()).filter(|t| !(opts.stale_sarif && *t == stale));
     Ok(RunOut {
         status: out.status.code(),
         signal: out.status.signal(),
